@@ -122,6 +122,9 @@ func (s *Session) Reset() {
 	if s.delivery != nil {
 		s.abort(s.msgCtx)
 	}
+	// The failure of a deferred MAIL is kept without an open delivery, it
+	// belongs to the transaction that ends here.
+	s.deliveryErr = nil
 	s.endp.Log.DebugMsg("reset")
 }
 
@@ -339,9 +342,12 @@ func (s *Session) Mail(from string, opts *smtp.MailOptions) error {
 		return nil
 	}
 
-	// Keep the MAIL FROM argument for deferred startDelivery.
+	// Keep the MAIL FROM argument for deferred startDelivery. A failure kept
+	// for an earlier MAIL command (go-smtp accepts MAIL again without RSET)
+	// was built for that sender and its SMTPUTF8 flag, not for this one.
 	s.mailFrom = from
 	s.opts = *opts
+	s.deliveryErr = nil
 
 	return nil
 }
